@@ -174,6 +174,50 @@ def run_one(job):
             "preempted": sum(1 for a, b in zip(r["chosen"], r["chosen"][1:]) if a != b)}
 
 
+def run_twin(job):
+    import c19_impl as I
+    import c19_twin as T
+    I.setup()
+    return T.job(job)
+
+
+def c_twin(r):
+    zz = lambda xs: "(" + clist(xs, czlist) + ")%Z"  # noqa: E731
+    return f"({zz(r['eager'])}, {zz(r['lazy'])})"
+
+
+def twin_stage(chk, rng, pool, quick):
+    """hierarchies with two bases (lazy / eager twins, sequential triggers); oracle check_twin"""
+    import c19_twin as T
+    jobs = [(sh, sq) for sh in T.shapes() for sq in T.sequences(sh)]
+    if quick:
+        must = [j for j in jobs if len(j[0]["bases"]) == 2 and j[1][0] == "inst" and not j[0]["own"]]
+        rest = [j for j in jobs if j not in must]
+        jobs = must + rng.sample(rest, 200)
+    res = list(pool.map(run_twin, jobs, chunksize=8))
+    keep = [(j, r) for j, r in zip(jobs, res) if r["eager_ok"]]
+    bad, logs = coq_eval("C19", PRELUDE, "check_twin", [c_twin(r) for _, r in keep], shard=150, tag="tw",
+                         case_type="list (list Z) * list (list Z)")
+    seen = set()
+    for i, code in sorted(bad):
+        (sh, sq), r = keep[i]
+        sig = (tuple(sh["bases"]), sh["own"])
+        if sig in seen or len(seen) >= 3:
+            continue
+        seen.add(sig)
+        diff = [(a, b) for a, b in zip(r["eager_raw"], r["lazy_raw"]) if a != b][:2]
+        chk.violation(f"lazily decorated hierarchy differs from its eager twin: class S({', '.join(sh['bases'])}) "
+                      f"own __new__={sh['own']} uses={sq}: eager/lazy first differences {diff}",
+                      {"kind": "twin", "shape": sh, "uses": sq, "source": T.render(sh, False),
+                       "eager": r["eager_raw"], "lazy": r["lazy_raw"], "code": 2,
+                       "replay": "bin/check C19 --replay <this file>"},
+                      sig={"code": 2, "generator": "twin"}, no_input=False)
+    for lg in logs:
+        chk.violation("twin evaluation failed: " + lg[-500:], {"kind": "coq-eval", "log": lg}, no_input=True)
+    return {"twin_cases": len(jobs), "twin_valid": len(keep), "twin_disagreements": len(bad),
+            "twin_base_orders": sorted({",".join(j[0]["bases"]) for j in jobs})}
+
+
 def warm(_):
     import c19_impl as I
     I.setup()
@@ -363,6 +407,16 @@ def main2(tier, replay, pool):
         if r.get("kind") in ("proof", "coq-eval"):
             print("replay of a proof-obligation failure: re-run bin/check C19 quick")
             return 1
+        if r.get("kind") == "twin":
+            import c19_twin as T
+            print(r["source"])
+            res = run_twin((r["shape"], r["uses"]))
+            print("uses:", r["uses"])
+            print("eager:", res["eager_raw"])
+            print("lazy: ", res["lazy_raw"])
+            same = res["eager"] == res["lazy"]
+            print("replay:", "passes now" if same else "still failing code=2 (lazy twin differs from eager twin)")
+            return 0 if same else 1
         import c19_impl as I
         print(I.render(r["classes"], False))
         res, code, logs = replay_case(r, pool)
@@ -390,6 +444,7 @@ def main2(tier, replay, pool):
             meta.extend(ms[a:a + 8000])
         return True
 
+    twin_info = twin_stage(chk, rng, pool, quick)
     # 1. sequential trigger independence: every trigger kind x every target, one thread
     n_seq = 25 if quick else 150
     js, ms = [], []
@@ -486,7 +541,7 @@ def main2(tier, replay, pool):
             "declaration_form_histogram(form+default kind)": forms,
             "deadlocks": sum(1 for r in results if r["deadlock"]), "stuck_timeouts": sum(r["stuck"] for r in results),
             "max_steps": max(r["steps"] for r in results), "events_per_run_max": max(r["nevents"] for r in results),
-            "schedule_sets": sched_info[:12], "truncated_by_deadline": truncated,
+            "twin_probe": twin_info, "schedule_sets": sched_info[:12], "truncated_by_deadline": truncated,
             "anchored_lines_executed": {f: sorted(l for ff, l in lines if ff == f) for f in sorted({f for f, _ in lines})},
             "compared": "protocol event trace (placeholder tests, lock acquire/release with depth, re-check, body entry, declaration reads/consumption, publish, registration, wrapper removal, __new__ lookups) vs model trace for the same schedule; eager metadata vs model seq_meta; oracle: final class descriptions + thread outcomes vs eager reference",
         },
